@@ -3,7 +3,12 @@
 known_findings/<ID>.json. Failures are assigned to root-cause findings by the rules below; anything that matches no
 rule is printed and NOT listed (so it stays a VIOLATION until it has been looked at)."""
 import json, re, sys, collections
-prop, dumps = sys.argv[1], sys.argv[2:]
+# usage: triage.py [--merge] <ID> <dump>...   (--merge: instances already listed under a finding stay listed — used when only
+# one tier was re-run; an instance is an exact (class, configuration, range, program) key, so a stale one can only ever match
+# the very same input failing in the very same way)
+MERGE = '--merge' in sys.argv
+_args = [a for a in sys.argv[1:] if a != '--merge']
+prop, dumps = _args[0], _args[1:]
 
 RULES = []
 def rule(fid, what):
@@ -106,7 +111,25 @@ for _once in [0]:
         if not done:
             unassigned.append((key, out))
         WIDTHS.setdefault(key, set()).update(inst.get('widths', [0]))
-res = {"property": prop, "findings": [g for g in groups.values() if g["instances"]], "fixed": []}
+OLDINST = {}
+try:
+    _old = json.load(open('/verif/known_findings/%s.json' % prop))
+    if MERGE:
+        for f in _old.get("findings", []):
+            if f["id"] in groups:
+                OLDINST[f["id"]] = f.get("instances", {})
+except FileNotFoundError:
+    pass
+def parse_ranges(s):
+    ws = set()
+    for part in str(s).split(','):
+        if not part: continue
+        if '-' in part:
+            a, b = part.split('-'); ws.update(range(int(a), int(b) + 1))
+        else:
+            ws.add(int(part))
+    return ws
+res = {"property": prop, "findings": [g for g in groups.values() if g["instances"] or OLDINST.get(g["id"])], "fixed": []}
 try:
     old = json.load(open('/verif/known_findings/%s.json' % prop)); res["fixed"] = old.get("fixed", [])
     # keep hand-written findings that this tool does not generate
@@ -128,7 +151,10 @@ for f in res["findings"]:
                 while j + 1 < len(ws) and ws[j + 1] == ws[j] + 1: j += 1
                 out.append(str(ws[i]) if i == j else '%d-%d' % (ws[i], ws[j])); i = j + 1
             return ','.join(out)
-        f["instances"] = {fnv(k): ranges(WIDTHS.get(k, {0})) for k in inst}
+        new_inst = {fnv(k): WIDTHS.get(k, {0}) for k in inst}
+        for h, r in OLDINST.get(f["id"], {}).items():
+            new_inst.setdefault(h, set()).update(parse_ranges(r))
+        f["instances"] = {h: ranges(w) for h, w in sorted(new_inst.items())}
         f.pop("instance_hashes", None)
 json.dump(res, open('/verif/known_findings/%s.json' % prop, 'w'), indent=0)
 for f in res["findings"]: print(f["id"], len(f.get("instances", {})))
